@@ -8,6 +8,7 @@ import (
 	"fmt"
 	"os"
 	"path/filepath"
+	"regexp"
 	"sort"
 	"strconv"
 	"strings"
@@ -85,6 +86,7 @@ func cmdCheck(args []string) {
 	repo := fs.String("repo", "/repo", "repository")
 	specDir := fs.String("spec-dir", "", "override directory with contract files (development)")
 	noEvidence := fs.Bool("no-evidence", false, "do not write the evidence file (self tests)")
+	pin := fs.Bool("pin", false, "write obligations/<property>.txt from this run (only when everything discharged)")
 	outRoot := fs.String("out", "", "output directory (default /verif/out/<property>)")
 	fs.Parse(args)
 	if t := os.Getenv("VERIF_TIER"); t != "" {
@@ -266,8 +268,17 @@ func cmdCheck(args []string) {
 			undecidedLines = append(undecidedLines, fmt.Sprintf("UNDECIDED property=%s %s: %s", *prop, c.name, c.detail))
 		}
 	}
+	producedBase := map[string]bool{}
+	for n := range produced {
+		producedBase[baseName(n)] = true
+	}
+	if *pin && violations == 0 && undecided == 0 {
+		os.MkdirAll(filepath.Join(verifRoot, "obligations"), 0o755)
+		os.WriteFile(filepath.Join(verifRoot, "obligations", *prop+".txt"), []byte("# obligation base names this property must generate (suffixes ~k and /k stripped)\n"+strings.Join(sortedKeys(producedBase), "\n")+"\n"), 0o644)
+		pinned = nil
+	}
 	for _, p := range pinned {
-		if !produced[p] {
+		if !producedBase[p] {
 			undecided++
 			undecidedLines = append(undecidedLines, fmt.Sprintf("UNDECIDED property=%s pinned obligation %s was not generated", *prop, p))
 		}
@@ -323,6 +334,23 @@ func cmdCheck(args []string) {
 	}
 	if undecided > 0 {
 		os.Exit(2)
+	}
+}
+
+var suffixRe = regexp.MustCompile(`(~\d+|/\d+)+$`)
+
+var counterRe = regexp.MustCompile(`(@unlock)\d+|(:[rw])\d+$|:\d+$`)
+
+// baseName strips the counters that depend on how many similar sites a function has, so that the pinned list
+// survives harmless edits (an extra read of a guarded field, one more return).
+func baseName(n string) string {
+	for {
+		m := suffixRe.ReplaceAllString(n, "")
+		m = counterRe.ReplaceAllString(m, "$1$2")
+		if m == n {
+			return n
+		}
+		n = m
 	}
 }
 
